@@ -44,7 +44,7 @@ from diskcache.djangocache import DjangoCache  # noqa: E402
 ID = 'C14'
 COQ_PROP = 'C14'
 LEVEL = 'proof'
-TRANSLATE = ['sql', 'disk', 'fanout', 'django', 'persistent']
+TRANSLATE = ['sql', 'disk', 'fanout', 'django', 'persistent', 'format', 'checkfn']
 TRUSTED = [
     'a raw sqlite3 connection executing BEGIN IMMEDIATE stands for "another client holds the write lock"; SQLite busy handling with timeout 0',
     'the explicit operation table OPS of harness/props/c14.py is the list of public data operations (administrative calls -- check, stats, reset, '
